@@ -3,6 +3,7 @@ package props
 import (
 	"encoding/json"
 	"fmt"
+	"os"
 	"testing"
 	"time"
 
@@ -274,6 +275,9 @@ func TestC10(t *testing.T) {
 				if err := back.Validate(); err != nil {
 					c.note("export_import_minter: exported genesis does not validate: %v", err)
 					c.classes["exported_minter_genesis_invalid"] = true
+					if os.Getenv("VERIF_DEBUG") != "" {
+						c.t.Fatalf("DEBUG exported minter genesis invalid: %v\n%s", err, jsonStr(c.log))
+					}
 					return
 				}
 				cfeminter.InitGenesis(c.ctx, c.w.App.CfeminterKeeper, c.w.App.AccountKeeper, back)
